@@ -101,7 +101,7 @@ def direct(circuit1, circuit2):
                     op1.q_registers_type == op2.q_registers_type
                     and op1.q_registers == op2.q_registers
                 )
-                if isinstance(op1, type(op2)) and control_match:
+                if type(op1) is type(op2) and control_match:
                     pass
                 else:
                     return False
@@ -161,7 +161,7 @@ def ged(circuit1, circuit2, full=True):
             n1["op"].q_registers_type == n2["op"].q_registers_type
             and n1["op"].q_registers == n2["op"].q_registers
         )
-        ops_match = isinstance(n1["op"], type(n2["op"]))
+        ops_match = type(n1["op"]) is type(n2["op"])
 
         return reg_match and ops_match
 
